@@ -482,6 +482,8 @@ def r_rle_dep(ctx):
                             pass        # an overflow guard on the counter itself
                         else:
                             extra.append("%s %s %s" % (tstr(a)[:40], fct[1], tstr(b)[:40]))
+                    elif fct[0] == "empty" and fct[2] is False and is_last and unmut(fct[1]) == unmut(last[2][0]):
+                        pass        # "there is a last entry" said differently
                     elif fct[0] in ("bool", "empty"):
                         extra.append("%s(%s) is %s" % (fct[0], tstr(unmut(fct[1]))[:50], fct[2]))
                 obs.append(Ob("R-RLE-DEP", fn, "extend arm requires adjacency: tile_id == last.tile_id + last.run_length", adj and is_last, "adjacency fact on the path: %s" % adj, st.loc()))
